@@ -424,7 +424,8 @@ NATURAL = ["missing_input", "empty_input", "garbage_input", "binary_input", "no_
            "ligand_partial_nonintegral", "nonintegral_userff_large", "nonintegral_userff_large",
            "nonintegral_userff_terminal_nucleotide", "nonintegral_userff_terminal_nucleotide",
            "corrupt_coordinate_field", "corrupt_coordinate_field",
-           "usernames_points_to_missing_residue", "usernames_points_to_missing_residue"]
+           "usernames_points_to_missing_residue", "usernames_points_to_missing_residue",
+           "over_repair_limit_protonated", "over_repair_limit_protonated", "only_unknown_residues_as_atom_records"]
 
 
 def good_text(rng):
@@ -458,6 +459,30 @@ def natural(spec, rng):
         text = pdbfmt.to_text([it for it in items if not (isinstance(it, dict) and it["name"] == "CA")])
     elif f == "over_repair_limit":
         text = pdbfmt.to_text([it for it in items if not (isinstance(it, dict) and it["name"] not in ("N", "CA", "C"))])
+    elif f == "over_repair_limit_protonated":
+        # a structure that carries its hydrogens (NMR-style, or a re-fed --pdb-output) and lacks 13-25 % of its heavy
+        # atoms: beyond the documented repair limit (0.1 of the heavy atoms), however many hydrogens are present
+        seq = [rng.choice(["ARG", "LYS", "GLU", "GLN", "MET", "LEU", "PHE", "TYR", "TRP", "ILE"]) for _ in range(rng.randint(8, 12))]
+        pep = S.peptide(seq, rng, hydrogens="all")
+        its, _ = S.assemble([{"id": "A", "start": 1, "residues": pep}])
+        heavy = [it for it in its if isinstance(it, dict) and not it["name"].startswith("H")]
+        side = [it for it in heavy if it["name"] not in ("N", "CA", "C", "O", "OXT", "CB")]
+        want = int(len(heavy) * rng.uniform(0.13, 0.25)) + 1
+        # outermost side-chain atoms first (what weak density removes), never a backbone atom
+        side.sort(key=lambda it: (-len(it["name"]), it["name"]), reverse=False)
+        drop = {id(it) for it in rng.sample(side, min(len(side), want))}
+        text = pdbfmt.to_text([it for it in its if id(it) not in drop])
+        opts = ["--ff=" + rng.choice(["AMBER", "PARSE", "CHARMM"])] + rng.choice([[], ["--noopt"], ["--nodebump"]])
+    elif f == "only_unknown_residues_as_atom_records":
+        # residues no force field knows, written as ATOM records, no --ligand: nothing can be parameterised
+        lines = []
+        for k in range(rng.randint(1, 3)):
+            rn = rng.choice(["XYZ", "LIG", "UNK", "MSE"])
+            for j, an in enumerate(["C1", "C2", "O1", "N1"][: rng.randint(1, 4)]):
+                lines.append("ATOM  %5d  %-3s %3s A%4d    %8.3f%8.3f%8.3f  1.00  0.00           %s" %
+                             (len(lines) + 1, an, rn, k + 1, 1.5 * j, 4.0 * k, 0.0, an[0]))
+        text = "\n".join(lines + ["END", ""])
+        opts = ["--ff=" + rng.choice(["AMBER", "PARSE", "CHARMM", "SWANSON"])]
     elif f == "userff_without_names":
         extra = {"u.dat": amber_dat}
         opts = ["--userff={dir}/u.dat"]
